@@ -39,7 +39,7 @@ if __name__ == "__main__":
         else:
             cfg(name, fault=fault, invs=[inv], **small)
     # exhaustive, fault-free
-    cfg("quick", n=3, maxt=5, starts="{1, 2}", ends="{5}", budget=3, wd="FALSE", stops="FALSE")
+    cfg("quick", n=3, maxt=5, starts="{1}", ends="{5}", budget=3, wd="FALSE", stops="FALSE")
     cfg("wdstopq", n=2, maxt=4, starts="{1}", ends="{4}", budget=3, wd="TRUE", stops="TRUE", pereval=2)
     cfg("wdstop", n=2, maxt=5, starts="{1, 2}", ends="{5}", budget=3, wd="TRUE", stops="TRUE", pereval=2)
     cfg("thorough", n=3, maxt=6, starts="{1, 2}", ends="{5, 7}", budget=4, wd="FALSE", stops="FALSE")
